@@ -1,1 +1,30 @@
 //! Stubs shared by harnesses (each one is part of the claim of the harness using it).
+//!
+//! * logging: every `tracing::` macro reaches a `thread_local!` with a destructor, which
+//!   kani-compiler 0.68 cannot compile; logging is never the subject of a property.
+//! * `RandomState::new`: reads OS randomness; replaced by fixed keys (hash order is not
+//!   observable in the harnesses that use it).
+use tracing_core::{Interest, Metadata, callsite::DefaultCallsite, field::ValueSet};
+
+pub fn interest_never(_callsite: &'static DefaultCallsite) -> Interest {
+    Interest::never()
+}
+
+pub fn is_enabled_false(_meta: &'static Metadata<'static>, _interest: Interest) -> bool {
+    false
+}
+
+pub fn dispatch_nothing<'a>(_meta: &'static Metadata<'static>, _fields: &'a ValueSet<'_>)
+where
+    'a: 'a,
+{
+}
+
+pub fn span_none(_meta: &'static Metadata<'static>, _values: &ValueSet<'_>) -> tracing::Span {
+    tracing::Span::none()
+}
+
+pub fn random_state_fixed() -> std::hash::RandomState {
+    // SAFETY: RandomState is two u64 keys
+    unsafe { std::mem::transmute((0x0123_4567_89ab_cdefu64, 0x0fed_cba9_8765_4321u64)) }
+}
